@@ -1,4 +1,4 @@
-(* Driver for the C10 model. Input lines (harness c10 join):
+(* Driver for the C10 model. Input lines (harness c10 join; harness c10 files -cases for op tool):
      K <id> <op> <arg> (<stts> <ctts> <stsc> <stsz> <offsets> <stss> <sdtp>)+ <result tokens of the real routines>
    Output: "OK <id>" or "MISMATCH <id> <what> model=<..> impl=<..>". *)
 open Vx
@@ -6,6 +6,7 @@ open Base
 open C09Model
 open C10Model
 open C10FileModel
+open C10TreeModel
 
 (* decimal <-> N of any size (OCaml ints hold 62 bits only; offsets and durations are 64-bit) *)
 let n10 = n_of_int 10
@@ -199,6 +200,33 @@ let () =
       let f = Array.of_list (split_on '\t' line) in
       let nf = Array.length f in
       if nf < 5 || f.(0) <> "K" then Printf.printf "BADLINE %s\n" (S.sub line 0 (min 60 (S.length line)))
+      else if f.(2) = "tool" then begin
+        (* K <id> tool <ms> <input file hex> <class> <output file hex | ->: the whole tool on C01's box-tree model *)
+        let id = f.(1) in
+        let input = bytes_of_hex f.(4) in
+        let ms = n_of_dec f.(3) in
+        let cls = f.(5) and outhex = f.(6) in
+        let model_cls, model_out =
+          match crop_tool input ms with
+          | None -> ("unmodelled", "-")
+          | Some (Ok out) -> ("ok", (match out with [] -> "-" | _ -> hex_of_bytes out))
+          | Some Err -> ("err", "-") | Some Panic -> ("panic", "-") | Some OutOfFuel -> ("outoffuel", "-") in
+        let sizes_ok = match crop_tool_sizes input ms with
+          | Some (Ok (a, b)) -> BinNat.N.eqb a b
+          | _ -> true in
+        if model_cls <> cls then Printf.printf "MISMATCH %s tool class model=%s impl=%s\n" id model_cls cls
+        else if cls = "ok" && S.lowercase_ascii model_out <> S.lowercase_ascii outhex then begin
+          let n = min (S.length model_out) (S.length outhex) in
+          let i = ref 0 in
+          while !i < n && model_out.[!i] = outhex.[!i] do incr i done;
+          Printf.printf "MISMATCH %s tool bytes differ at byte %d (model %d bytes, impl %d bytes) model=..%s impl=..%s\n" id (!i / 2)
+            (S.length model_out / 2) (S.length outhex / 2)
+            (S.sub model_out (!i / 2 * 2) (min 32 (S.length model_out - !i / 2 * 2)))
+            (S.sub outhex (!i / 2 * 2) (min 32 (S.length outhex - !i / 2 * 2)))
+        end
+        else if not sizes_ok then Printf.printf "MISMATCH %s tool encoded-size-vs-sizeWithoutMdat model-internal\n" id
+        else Printf.printf "OK %s\n" id
+      end
       else if f.(2) = "hdr" || f.(2) = "mdat" then begin
         let id = f.(1) and op = f.(2) in
         let a = Array.of_list (split_on ':' f.(3)) in
